@@ -6,6 +6,9 @@ import Mhd.Proofs.FramingIdle
 namespace Mhd.Framing
 open Mhd.Gen.Framing
 
+set_option linter.unusedSectionVars false
+variable [P : HeadParser] [L : LawfulHeadParser]
+
 /-- bytes arrive: appended to the read buffer unless the connection is finished -/
 def recv (s : St) (b : Bytes) : St :=
   if s.state = .closed ∨ s.state = .outOfDomain then s else extend s b
@@ -21,6 +24,7 @@ theorem feed_eq (lvl : Int) (app : App) (s : St) (b : Bytes) : feed lvl app s b 
     | inr h => simp [h]
   · rfl
 
+omit P L in
 theorem emitUpload_emitUpload (x y : Bytes) (out : List Ev) :
     emitUpload y (emitUpload x out) = emitUpload (x ++ y) out := by
   unfold emitUpload
@@ -80,16 +84,19 @@ theorem comm_error (lvl : Int) (app : App) (s : St) (b : Bytes) (st : Nat) (wf :
   rw [idle_errorReply lvl app s b st wf]
   exact idle_step lvl app _ _ (chunkWF_extend s b wf) h
 
+omit P L in
 theorem bodyStep_term (lvl : Int) (u : St) (n : Nat) (hc : u.chunked = true)
     (ha : chunkAct lvl u.cur u.off u.buf = .term n) :
     bodyStep lvl u = some { u with buf := u.buf.drop n, cur := 0, off := 0 } := by
   unfold bodyStep; simp only [hc, ha, if_true]
 
+omit P L in
 theorem bodyStep_data (lvl : Int) (u : St) (n : Nat) (hc : u.chunked = true)
     (ha : chunkAct lvl u.cur u.off u.buf = .data n) :
     bodyStep lvl u = some { u with buf := u.buf.drop n, off := u.off + n, out := emitUpload (u.buf.take n) u.out } := by
   unfold bodyStep; simp only [hc, ha, if_true]
 
+omit P L in
 theorem bodyStep_line (lvl : Int) (u : St) (len size : Nat) (hc : u.chunked = true)
     (ha : chunkAct lvl u.cur u.off u.buf = .line len size) :
     bodyStep lvl u =
@@ -98,10 +105,12 @@ theorem bodyStep_line (lvl : Int) (u : St) (len size : Nat) (hc : u.chunked = tr
       else some { u with buf := u.buf.drop len, cur := size, off := 0 } := by
   unfold bodyStep; simp only [hc, ha, if_true]
 
+omit P L in
 theorem bodyStep_err (lvl : Int) (u : St) (st : Nat) (hc : u.chunked = true)
     (ha : chunkAct lvl u.cur u.off u.buf = .err st) : bodyStep lvl u = some (errorReply u st) := by
   unfold bodyStep; simp only [hc, ha, if_true]
 
+omit P L in
 theorem bodyStep_identity (lvl : Int) (u : St) (hc : u.chunked = false) (hb : u.buf ≠ []) :
     bodyStep lvl u =
       some (if u.remaining - min u.remaining u.buf.length = 0
@@ -299,16 +308,16 @@ theorem step_comm (lvl : Int) (app : App) (s s' : St) (b : Bytes) (wf : ChunkWF 
   unfold idleStep at h
   split at h
   · rename_i hs
-    cases hp : parseHead s.buf with
+    cases hp : P.head s.buf with
     | incomplete => simp [hp] at h
     | bad =>
       simp only [hp] at h; cases h
       apply comm_terminal lvl app s _ b wf _ (Or.inr rfl)
-      unfold idleStep; simp only [extend, hs, parseHead_bad_append _ b hp]
+      unfold idleStep; simp only [extend, hs, L.head_bad_append _ b hp]
     | ok hd rest =>
       simp only [hp] at h; cases h
       apply comm_simple lvl app s _ b wf _ (by simp) (by simp)
-      unfold idleStep; simp only [extend, hs, parseHead_append _ b _ _ hp]
+      unfold idleStep; simp only [extend, hs, L.head_append _ b _ _ hp]
   · rename_i hs
     cases hd : decideBody lvl s.head.http11 s.head.fields with
     | reject st =>
@@ -410,20 +419,16 @@ theorem step_comm (lvl : Int) (app : App) (s s' : St) (b : Bytes) (wf : ChunkWF 
     apply comm_simple lvl app s _ b wf _ (by simp only; split <;> simp) (by simp only; split <;> simp)
     unfold idleStep; simp only [extend, hs]
   · rename_i hs
-    cases hp : parseTrailers s.buf with
+    cases hp : P.trailers s.buf with
     | incomplete => simp [hp] at h
     | bad =>
       simp only [hp] at h; cases h
       apply comm_terminal lvl app s _ b wf _ (Or.inr rfl)
-      unfold idleStep; simp only [extend, hs]
-      unfold parseTrailers at hp ⊢
-      rw [takeFields_bad_append _ _ _ b hp (by simp)]
+      unfold idleStep; simp only [extend, hs, L.trailers_bad_append _ b hp]
     | ok fs rest =>
       simp only [hp] at h; cases h
       apply comm_simple lvl app s _ b wf _ (by simp) (by simp)
-      unfold idleStep; simp only [extend, hs]
-      unfold parseTrailers at hp ⊢
-      rw [takeFields_append _ _ _ b _ _ hp (by simp)]
+      unfold idleStep; simp only [extend, hs, L.trailers_append _ b _ _ hp]
   · rename_i hs
     cases h
     apply comm_simple lvl app s _ b wf _ (by simp) (by simp)
@@ -520,7 +525,7 @@ theorem foldl_feed_flatten (lvl : Int) (app : App) (segs : List Bytes) (s : St) 
     rw [ih (feed lvl app s a) this.1 this.2, feed_append lvl app s wf]
 
 theorem init_quiescent (lvl : Int) (app : App) : idleStep lvl app {} = none := by
-  unfold idleStep; rfl
+  unfold idleStep; simp only [L.head_nil]
 
 /-- every segmentation of a stream gives the same connection state (handler calls with coalesced
     upload data, replies, close) as delivering the stream in one piece -/
